@@ -29,11 +29,11 @@ theorem ownEv_iff (L : Loc) (e : Event) : ownEv L e = true ↔ evLoc e = some L 
     initialization ↦ `.suiteSetup path`, suite teardown ↦ `.suiteTeardown path`, session setup / teardown),
     run or skipped, every event in the task's output belongs to that location. -/
 theorem task_events_local (P : Proj) (insts : Insts) (w : Nat) (t : TaskId) (run reason : Bool) (kept : List Td)
-    (cut fl : Option Nat) (L : Loc) (hL : taskLoc t = some L) :
-    ∀ e, Item.ev e ∈ (runTask P insts w t run reason kept cut fl).items → evLoc e = some L := by
+    (cut : Option Nat) (L : Loc) (hL : taskLoc t = some L) :
+    ∀ e, Item.ev e ∈ (runTask P insts w t run reason kept cut).items → evLoc e = some L := by
   intro e he
   have h := tra_taskProgram_own P (allSuites P) w t run reason kept L hL
-  obtain ⟨hs, _, _⟩ := runTask_of_tr P insts w t run reason kept cut fl h (jt_init _)
+  obtain ⟨hs, _, _⟩ := runTask_of_tr P insts w t run reason kept cut h (jt_init _)
   exact (ownEv_iff L e).mp (hs _ he)
 
 /-- the suite begin / end tasks have no location; their single event is located by `C01Run.suite_begin_items`
@@ -42,8 +42,8 @@ theorem begin_end_no_loc (t : TaskId) : taskLoc t = none ↔ t.kind = .begin ∨
   unfold taskLoc; cases t.kind <;> simp
 
 /-! Non-vacuity: the sample test task works at `.test ["s","t"]`. -/
-example : ∀ e, Item.ev e ∈ (runTask Sample.PA Insts.empty 0 ⟨.test, ["s", "t"]⟩ true false [] (some 3) none).items →
+example : ∀ e, Item.ev e ∈ (runTask Sample.PA Insts.empty 0 ⟨.test, ["s", "t"]⟩ true false [] (some 3)).items →
     evLoc e = some (.test ["s", "t"]) :=
-  task_events_local _ _ _ _ _ _ _ _ _ _ rfl
+  task_events_local _ _ _ _ _ _ _ _ _ rfl
 
 end LccModel.C07Run
